@@ -34,20 +34,29 @@ class _Alarm(BaseException):
 
 
 def _counting(resources, budget):
-    from pjplan import IResource
+    """Count capacity queries WITHOUT changing what the scheduler sees: the resources stay genuine `Resource`
+    objects (same str(), same class), only their calendar is wrapped in a counting IWorkCalendar."""
+    from pjplan import IWorkCalendar, Resource
     state = {'n': 0}
 
-    class Counting(IResource):
+    class CountingCalendar(IWorkCalendar):
         def __init__(self, inner):
-            super().__init__(inner.name)
             self.inner = inner
 
-        def get_available_units(self, date, task=None):
+        def get_available_units(self, date):
             state['n'] += 1
             if state['n'] > budget:
                 raise _Budget()
-            return self.inner.get_available_units(date, task)
-    return [Counting(r) for r in resources], state
+            return self.inner.get_available_units(date)
+
+        def __repr__(self):
+            return repr(self.inner)
+    out = []
+    for r in resources:
+        if isinstance(r, Resource):
+            r.calendar = CountingCalendar(r.calendar)
+        out.append(r)
+    return out, state
 
 
 @st.composite
